@@ -76,10 +76,25 @@ pub fn gen_pool(rng: &mut Rng, n: usize) -> Vec<Key> {
                 set.insert(base);
                 let mut k = base; let b = 255 - rng.usize(3); set_bit(&mut k, b, !get_bit(&base, b)); set.insert(k);
             }
-            _ => {
+            _ if rng.chance(1, 2) => {
                 // low keys / high keys (leftmost and rightmost leaves, first-separator handling)
                 let mut k = [0u8; 32]; if rng.chance(1, 2) { k = [0xff; 32]; }
                 let i = rng.usize(32); k[i] = rng.next() as u8; set.insert(k);
+            }
+            _ => {
+                // the extreme keys of a sub-trie: a prefix followed by all ones (the last key path
+                // below it) and its successor, the next prefix followed by all zeros — the two
+                // sides of a page / root-child / worker-range boundary
+                let l = *rng.pick(&[1usize, 2, 3, 4, 5, 6, 6, 6, 7, 12, 12, 18, 24]);
+                let mut hi = rng.bytes32();
+                for i in l..256 { set_bit(&mut hi, i, true); }
+                let mut lo = hi;
+                // successor of prefix||1..1: increment the prefix, zero the rest (skip if the prefix is all ones)
+                let mut carry = true;
+                for i in (0..l).rev() { if carry { let b = get_bit(&lo, i); set_bit(&mut lo, i, !b); carry = b; } }
+                for i in l..256 { set_bit(&mut lo, i, false); }
+                match rng.below(4) { 0 => { set.insert(hi); } 1 => { if !carry { set.insert(lo); } } _ => { set.insert(hi); if !carry { set.insert(lo); } } }
+                if rng.chance(1, 3) { let mut k = hi; set_bit(&mut k, 255, false); set.insert(k); }
             }
         }
     }
